@@ -1,3 +1,70 @@
 import Librfn.Model.PT
+import Librfn.Spec.PT
+import Librfn.Lemmas.PT
+/-!
+# C08 — protothreads resume exactly where they blocked and relay child results
+
+Model: `Librfn.Model.PT` (`exec`: the switch/case semantics of the PT_* macros of
+`include/librfn/protothreads.h`; budget `n = 0` is the real behaviour, budget `n > 0` passes through
+`n` blocking points = the body as one sequential program).  Spec: `Librfn.Spec.PT.residual`.
+-/
 namespace Librfn.C08
+open Librfn.Model.PT Librfn.Model.PT.Stmt Librfn.Spec.PT
+
+theorem setPt_self (st : St) : st.setPt st.me.pt = st := by
+  cases st with | mk v t me => cases me with | mk p k => rfl
+
+/-- **each invocation continues immediately after the point where the previous one returned**:
+entering the body at `case l:` (C's jump into nested statements) is running the program text that
+follows label `l` from its start — for every fuel, every budget, every store, children to any depth.
+`yield`/`wait` block exactly once (their residual is `skip`), `waitUntil` re-evaluates its condition
+(its residual is itself), a spawn calls the child again without re-initialising it. -/
+theorem resume_is_residual (fuel : Nat) (s : Stmt) (l : Label) (res : Code) (n : Nat) (st : St)
+    (hl : l ∈ labels s) (hpt : st.me.pt = l) :
+    exec fuel s (some l) res n st = exec fuel (residual s l) none res n st := by
+  induction s generalizing st res n with
+  | skip | eff | exit | fail | exitOn | failOn | call | spin => simp [labels] at hl
+  | yield l' => simp [labels] at hl; subst hl; simp [exec, residual, block]
+  | wait l' => simp [labels] at hl; subst hl; simp [exec, residual, block]
+  | waitUntil l' c =>
+    simp [labels] at hl; subst hl
+    simp only [exec, residual, if_true]
+    rw [if_neg (by simp), ← hpt, setPt_self]
+  | seq a b iha ihb =>
+    simp only [labels, List.mem_append] at hl
+    by_cases ha : l ∈ labels a
+    · simp only [residual, ha, if_true]
+      rw [exec_seq_left _ _ _ _ _ _ _ ha, exec_seq_none, iha _ _ _ ha hpt]
+    · have hb : l ∈ labels b := by rcases hl with h | h; exact absurd h ha; exact h
+      simp only [residual, ha, if_false]
+      rw [exec_seq_right _ _ _ _ _ _ _ ha]; exact ihb _ _ _ hb hpt
+  | ifte c a b iha ihb =>
+    simp only [labels, List.mem_append] at hl
+    by_cases ha : l ∈ labels a
+    · simp only [residual, ha, if_true]
+      rw [exec_ifte_left _ _ _ _ _ _ _ _ ha]; exact iha _ _ _ ha hpt
+    · have hb : l ∈ labels b := by rcases hl with h | h; exact absurd h ha; exact h
+      simp only [residual, ha, if_false]
+      rw [exec_ifte_right _ _ _ _ _ _ _ _ ha]; exact ihb _ _ _ hb hpt
+  | ifChildOk a b iha ihb =>
+    simp only [labels, List.mem_append] at hl
+    by_cases ha : l ∈ labels a
+    · simp only [residual, ha, if_true]
+      rw [exec_ico_left _ _ _ _ _ _ _ ha]; exact iha _ _ _ ha hpt
+    · have hb : l ∈ labels b := by rcases hl with h | h; exact absurd h ha; exact h
+      simp only [residual, ha, if_false]
+      rw [exec_ico_right _ _ _ _ _ _ _ ha]; exact ihb _ _ _ hb hpt
+  | «while» c body ih =>
+    simp only [labels] at hl
+    simp only [residual]
+    rw [exec_while_some, exec_seq_none, ih _ _ _ hl hpt]
+  | spawn l' ch _ =>
+    simp [labels] at hl; subst hl
+    simp only [residual]; rw [exec_spawn_at]
+  | join l' ch _ => simp only [residual]; exact exec_join ..
+  | spawnAndCheck l' ch _ =>
+    simp [labels] at hl; subst hl
+    simp only [residual]
+    rw [exec_sac, exec_seq_left _ _ _ _ _ _ _ (by simp [labels]), exec_seq_none, exec_spawn_at]
+
 end Librfn.C08
